@@ -38,6 +38,7 @@ EXTENDS Props, HB, TLC, Json
 CONSTANTS
   NT, SrcLen, Hint,      \* workers, items the wrapped iterator yields, "exact" | "inexact" | "unbounded"
   PanicAt,               \* the wrapped iterator panics in its PanicAt-th call (0 = never)
+  Revive,                \* non-fused source: items it yields after its first None (0 = fused)
   MaxOps, OwnerOps, Sizes, TakeSet, OpKinds, MOD,
   FixA, FixH,            \* BOOLEAN
   OrdCurrent,            \* "Relaxed" (1.22.1) | "Acquire"
@@ -46,7 +47,8 @@ CONSTANTS
 VARIABLES
   cf,          \* run configuration
   reserved, yielded, completed,
-  taken,       \* items consumed from the wrapped iterator
+  taken,       \* items consumed from the wrapped iterator (late items of a non-fused source included)
+  noneSeen,    \* the wrapped iterator has returned None at least once
   calls,       \* calls of the wrapped next() so far
   alive,       \* the concurrent iterator has not been consumed
   pc, op, tk, got, polled, left, res, buf, nops,
@@ -54,8 +56,8 @@ VARIABLES
   hb,          \* HB monitor
   h
 
-vars == <<cf, reserved, yielded, completed, taken, calls, alive, pc, op, tk, got, polled, left, res, buf, nops, mon, hb, h>>
-view == <<cf, reserved, yielded, completed, taken, calls, alive, pc, op, tk, got, polled, left, res, buf, nops, mon, hb>>
+vars == <<cf, reserved, yielded, completed, taken, noneSeen, calls, alive, pc, op, tk, got, polled, left, res, buf, nops, mon, hb, h>>
+view == <<cf, reserved, yielded, completed, taken, noneSeen, calls, alive, pc, op, tk, got, polled, left, res, buf, nops, mon, hb>>
 
 Workers == 1..cf.nt
 T == 0..cf.nt
@@ -65,9 +67,9 @@ Takes == {IF j = 9 THEN -1 ELSE j : j \in TakeSet}
 OwnerOnly == {"intoseq", "drop"}
 
 CfgOfModel == [len |-> SrcLen, nt |-> NT, hint |-> Hint, base |-> 100, consuming |-> TRUE,
-               clones |-> FALSE, panicAt |-> PanicAt, kind |-> "iter"]
+               clones |-> FALSE, panicAt |-> PanicAt, revive |-> Revive, kind |-> "iter"]
 MonCfg(c) == [len |-> c.len, base |-> c.base, fam |-> "ticket", hint |-> c.hint,
-              consuming |-> c.consuming, clones |-> c.clones, nthreads |-> c.nt, kind |-> c.kind]
+              consuming |-> c.consuming, clones |-> c.clones, nthreads |-> c.nt, extra |-> c.revive, kind |-> c.kind]
 
 Ops ==
   LET on(k) == k \in OpKinds
@@ -113,6 +115,8 @@ PullKind(t) ==
     [] op[t].k = "chunk" -> "o"
     [] OTHER -> "b"
 Want(t) == IF PullKind(t) = "s" THEN 1 ELSE op[t].n
+\* the wrapped iterator has an item: a regular one, or (non-fused source) a late one after its first None
+HasItem == taken < cf.len \/ (noneSeen /\ taken < cf.len + cf.revive)
 StartPc == "res"
 
 RECURSIVE VisitSeq(_, _, _, _, _, _)
@@ -151,7 +155,8 @@ EndPull(t, b, ps) ==
 (* Actions                                                                  *)
 (***************************************************************************)
 FirstPc(o) ==
-  CASE o.k \in {"next", "nextid", "chunk", "bnext", "foreach", "eforeach", "fold"} -> StartPc
+  CASE o.k = "chunk" /\ o.n = 0 -> "ret"       \* a request for nothing returns None without touching shared state
+    [] o.k \in {"next", "nextid", "chunk", "bnext", "foreach", "eforeach", "fold"} -> StartPc
     [] o.k \in {"values", "idsvalues"} -> IF o.take = 0 THEN "ret" ELSE StartPc
     [] o.k \in {"len", "hasmore"} -> "ldc"
     [] o.k = "skip" -> IF FixA THEN "stc" ELSE "str"
@@ -169,12 +174,13 @@ CallBody(t, o) ==
   /\ left' = [left EXCEPT ![t] = o.take]
   /\ got' = [got EXCEPT ![t] = << >>]
   /\ res' = [res EXCEPT ![t] = IF o.k = "fold" THEN [k |-> "fold", vals |-> << >>]
+                               ELSE IF o.k = "chunk" /\ o.n = 0 THEN RNone
                                ELSE IF o.k = "intoseq" THEN [k |-> "seq", vals |-> << >>, full |-> FALSE]
                                ELSE RUnit]
   /\ buf' = [buf EXCEPT ![t] = IF o.k = "bnew" THEN o.n ELSE IF o.k = "bdrop" THEN 0 ELSE @]
   /\ alive' = (alive /\ o.k \notin OwnerOnly)
   /\ h' = [h EXCEPT !.sched = IF t = 0 THEN @ ELSE Append(@, t), !.prog[t] = Append(@, o)]
-  /\ UNCHANGED <<cf, reserved, yielded, completed, taken, calls, tk, polled, hb>>
+  /\ UNCHANGED <<cf, reserved, yielded, completed, taken, noneSeen, calls, tk, polled, hb>>
 
 Call(t, o) ==
   /\ o \in Ops
@@ -196,7 +202,7 @@ Chk(t) ==
        THEN EndPull(t, 0, << >>)
        ELSE pc' = [pc EXCEPT ![t] = "ly"] /\ UNCHANGED <<res, mon, left>>
   /\ Sched(t)
-  /\ UNCHANGED <<cf, reserved, yielded, completed, taken, calls, alive, op, tk, got, polled, buf, nops>>
+  /\ UNCHANGED <<cf, reserved, yielded, completed, taken, noneSeen, calls, alive, op, tk, got, polled, buf, nops>>
 
 Reserve(t) ==
   /\ pc[t] = "res"
@@ -207,7 +213,7 @@ Reserve(t) ==
   /\ hb' = HbRmw(hb, t, "r", "AcqRel")
   /\ ClearPolled
   /\ Sched(t)
-  /\ UNCHANGED <<cf, yielded, completed, taken, calls, alive, op, left, res, buf, nops, mon>>
+  /\ UNCHANGED <<cf, yielded, completed, taken, noneSeen, calls, alive, op, left, res, buf, nops, mon>>
 
 LoadY(t) ==
   /\ pc[t] = "ly" /\ "y" \notin polled[t]
@@ -215,14 +221,14 @@ LoadY(t) ==
   /\ polled' = [polled EXCEPT ![t] = @ \cup {"y"}]
   /\ LET serve == IF Mutant = "serve_less" THEN tk[t] <= yielded ELSE tk[t] = yielded IN
      IF serve
-       THEN /\ pc' = [pc EXCEPT ![t] = IF Want(t) = 0 THEN "setc" ELSE "enter"]
+       THEN /\ pc' = [pc EXCEPT ![t] = "enter"]
             /\ UNCHANGED <<res, mon, left>>
      ELSE IF tk[t] < yielded
        THEN EndPull(t, 0, << >>)
      ELSE /\ pc' = [pc EXCEPT ![t] = "lc"]
           /\ UNCHANGED <<res, mon, left>>
   /\ Sched(t)
-  /\ UNCHANGED <<cf, reserved, yielded, completed, taken, calls, alive, op, tk, got, buf, nops>>
+  /\ UNCHANGED <<cf, reserved, yielded, completed, taken, noneSeen, calls, alive, op, tk, got, buf, nops>>
 
 LoadC(t) ==
   /\ pc[t] = "lc" /\ "c" \notin polled[t]
@@ -232,7 +238,7 @@ LoadC(t) ==
        THEN EndPull(t, 0, << >>)
        ELSE pc' = [pc EXCEPT ![t] = "ly"] /\ UNCHANGED <<res, mon, left>>
   /\ Sched(t)
-  /\ UNCHANGED <<cf, reserved, yielded, completed, taken, calls, alive, op, tk, got, buf, nops>>
+  /\ UNCHANGED <<cf, reserved, yielded, completed, taken, noneSeen, calls, alive, op, tk, got, buf, nops>>
 
 Enter(t) ==
   /\ pc[t] = "enter"
@@ -240,7 +246,7 @@ Enter(t) ==
   /\ hb' = HbAccess(hb, t)
   /\ pc' = [pc EXCEPT ![t] = "exit"]
   /\ Sched(t)
-  /\ UNCHANGED <<cf, reserved, yielded, completed, taken, calls, alive, op, tk, got, polled, left, res, buf, nops>>
+  /\ UNCHANGED <<cf, reserved, yielded, completed, taken, noneSeen, calls, alive, op, tk, got, polled, left, res, buf, nops>>
 
 Exit(t) ==
   /\ pc[t] = "exit"
@@ -249,16 +255,18 @@ Exit(t) ==
   /\ IF calls + 1 = cf.panicAt
        THEN /\ res' = [res EXCEPT ![t] = RPanic(TRUE)]
             /\ pc' = [pc EXCEPT ![t] = IF FixH THEN "pguard" ELSE "ret"]
-            /\ UNCHANGED <<taken, got>>
-     ELSE IF taken < cf.len
+            /\ UNCHANGED <<taken, got, noneSeen>>
+     ELSE IF HasItem
        THEN LET g == Append(got[t], taken) IN
             /\ taken' = taken + 1
             /\ got' = [got EXCEPT ![t] = g]
             /\ pc' = [pc EXCEPT ![t] = IF Len(g) = Want(t) THEN "pub" ELSE "enter"]
-            /\ UNCHANGED res
-     ELSE /\ pc' = [pc EXCEPT ![t] = CASE PullKind(t) = "s" -> "setc"
-                                       [] PullKind(t) = "o" /\ got[t] = << >> -> "setc"
-                                       [] OTHER -> "pub"]
+            /\ UNCHANGED <<res, noneSeen>>
+     ELSE \* None: whatever the kind of pull, the iteration is marked as completed before the turn is passed on
+          /\ pc' = [pc EXCEPT ![t] = IF Mutant = "short_chunk_no_completed" /\ PullKind(t) # "s"
+                                            /\ (PullKind(t) = "b" \/ got[t] # << >>)
+                                         THEN "pub" ELSE "setc"]
+          /\ noneSeen' = TRUE
           /\ UNCHANGED <<taken, got, res>>
   /\ Sched(t)
   /\ UNCHANGED <<cf, reserved, yielded, completed, alive, op, tk, polled, left, buf, nops, hb>>
@@ -272,7 +280,7 @@ SetC(t) ==
        THEN EndPull(t, tk[t], << >>)
        ELSE pc' = [pc EXCEPT ![t] = "pub"] /\ UNCHANGED <<res, mon, left>>
   /\ Sched(t)
-  /\ UNCHANGED <<cf, reserved, yielded, taken, calls, alive, op, tk, got, buf, nops>>
+  /\ UNCHANGED <<cf, reserved, yielded, taken, noneSeen, calls, alive, op, tk, got, buf, nops>>
 
 \* [FixH] unwinding out of the critical section marks the iteration as completed
 PGuard(t) ==
@@ -282,7 +290,7 @@ PGuard(t) ==
   /\ ClearPolled
   /\ pc' = [pc EXCEPT ![t] = "ret"]
   /\ Sched(t)
-  /\ UNCHANGED <<cf, reserved, yielded, taken, calls, alive, op, tk, got, left, res, buf, nops, mon>>
+  /\ UNCHANGED <<cf, reserved, yielded, taken, noneSeen, calls, alive, op, tk, got, left, res, buf, nops, mon>>
 
 Pub(t) ==
   /\ pc[t] = "pub"
@@ -297,7 +305,7 @@ Pub(t) ==
             /\ UNCHANGED <<mon, left>>
        ELSE EndPull(t, tk[t], got[t])
   /\ Sched(t)
-  /\ UNCHANGED <<cf, reserved, completed, taken, calls, alive, op, tk, got, buf, nops>>
+  /\ UNCHANGED <<cf, reserved, completed, taken, noneSeen, calls, alive, op, tk, got, buf, nops>>
 
 \* try_get_len: completed.load(SeqCst), then (exact size hint only) reserved.current()
 LenLoadC(t) ==
@@ -312,7 +320,7 @@ LenLoadC(t) ==
      ELSE /\ res' = [res EXCEPT ![t] = IF hm THEN RHasMore(FALSE, 0) ELSE RLen(FALSE, 0)]
           /\ pc' = [pc EXCEPT ![t] = "ret"]
   /\ Sched(t)
-  /\ UNCHANGED <<cf, reserved, yielded, completed, taken, calls, alive, op, tk, got, polled, left, buf, nops, mon>>
+  /\ UNCHANGED <<cf, reserved, yielded, completed, taken, noneSeen, calls, alive, op, tk, got, polled, left, buf, nops, mon>>
 
 LenLoadR(t) ==
   /\ pc[t] = "ldr"
@@ -321,7 +329,7 @@ LenLoadR(t) ==
      res' = [res EXCEPT ![t] = IF op[t].k = "hasmore" THEN RHasMore(TRUE, v) ELSE RLen(TRUE, v)]
   /\ pc' = [pc EXCEPT ![t] = "ret"]
   /\ Sched(t)
-  /\ UNCHANGED <<cf, reserved, yielded, completed, taken, calls, alive, op, tk, got, polled, left, buf, nops, mon>>
+  /\ UNCHANGED <<cf, reserved, yielded, completed, taken, noneSeen, calls, alive, op, tk, got, polled, left, buf, nops, mon>>
 
 \* skip_to_end, version 1.22.1: reserved.store(usize::MAX); completed.store(true)
 SkipStoreR(t) ==
@@ -331,7 +339,7 @@ SkipStoreR(t) ==
   /\ ClearPolled
   /\ pc' = [pc EXCEPT ![t] = "stc"]
   /\ Sched(t)
-  /\ UNCHANGED <<cf, yielded, completed, taken, calls, alive, op, tk, got, left, res, buf, nops, mon>>
+  /\ UNCHANGED <<cf, yielded, completed, taken, noneSeen, calls, alive, op, tk, got, left, res, buf, nops, mon>>
 
 SkipStoreC(t) ==
   /\ pc[t] = "stc"
@@ -340,7 +348,7 @@ SkipStoreC(t) ==
   /\ ClearPolled
   /\ pc' = [pc EXCEPT ![t] = "ret"]
   /\ Sched(t)
-  /\ UNCHANGED <<cf, reserved, yielded, taken, calls, alive, op, tk, got, left, res, buf, nops, mon>>
+  /\ UNCHANGED <<cf, reserved, yielded, taken, noneSeen, calls, alive, op, tk, got, left, res, buf, nops, mon>>
 
 \* into_seq_iter returns the wrapped iterator; the owner then calls its next() directly
 SeqEnter(t) ==
@@ -348,13 +356,13 @@ SeqEnter(t) ==
   /\ mon' = MNextEnter(mon, t)
   /\ hb' = HbAccess(hb, t)
   /\ pc' = [pc EXCEPT ![t] = "sexit"]
-  /\ UNCHANGED <<cf, reserved, yielded, completed, taken, calls, alive, op, tk, got, polled, left, res, buf, nops, h>>
+  /\ UNCHANGED <<cf, reserved, yielded, completed, taken, noneSeen, calls, alive, op, tk, got, polled, left, res, buf, nops, h>>
 
 SeqExit(t) ==
   /\ pc[t] = "sexit"
   /\ calls' = calls + 1
   /\ mon' = MNextExit(mon, t)
-  /\ IF taken < cf.len
+  /\ IF HasItem
        THEN LET l2 == IF left[t] > 0 THEN left[t] - 1 ELSE left[t] IN
             /\ taken' = taken + 1
             /\ res' = [res EXCEPT ![t].vals = Append(@, cf.base + taken)]
@@ -363,6 +371,7 @@ SeqExit(t) ==
        ELSE /\ res' = [res EXCEPT ![t].full = TRUE]
             /\ pc' = [pc EXCEPT ![t] = "ret"]
             /\ UNCHANGED <<taken, left>>
+  /\ noneSeen' = (noneSeen \/ ~HasItem)
   /\ UNCHANGED <<cf, reserved, yielded, completed, alive, op, tk, got, polled, buf, nops, hb, h>>
 
 Ret(t) ==
@@ -370,12 +379,12 @@ Ret(t) ==
   /\ mon' = MRet(mon, t, res[t])
   /\ pc' = [pc EXCEPT ![t] = "idle"]
   /\ Sched(t)
-  /\ UNCHANGED <<cf, reserved, yielded, completed, taken, calls, alive, op, tk, got, polled, left, res, buf, nops, hb>>
+  /\ UNCHANGED <<cf, reserved, yielded, completed, taken, noneSeen, calls, alive, op, tk, got, polled, left, res, buf, nops, hb>>
 
 Stop(t) ==
   /\ pc[t] = "idle"
   /\ pc' = [pc EXCEPT ![t] = "done"]
-  /\ UNCHANGED <<cf, reserved, yielded, completed, taken, calls, alive, op, tk, got, polled, left, res, buf, nops, mon, hb, h>>
+  /\ UNCHANGED <<cf, reserved, yielded, completed, taken, noneSeen, calls, alive, op, tk, got, polled, left, res, buf, nops, mon, hb, h>>
 
 Step(t) ==
   \/ \E o \in Ops : Call(t, o)
@@ -384,7 +393,7 @@ Step(t) ==
 
 InitWith(c) ==
   /\ cf = c
-  /\ reserved = 0 /\ yielded = 0 /\ completed = FALSE /\ taken = 0 /\ calls = 0 /\ alive = TRUE
+  /\ reserved = 0 /\ yielded = 0 /\ completed = FALSE /\ taken = 0 /\ noneSeen = FALSE /\ calls = 0 /\ alive = TRUE
   /\ pc = [t \in 0..c.nt |-> "idle"]
   /\ op = [t \in 0..c.nt |-> [k |-> "", n |-> 0, take |-> -1]]
   /\ tk = [t \in 0..c.nt |-> 0]
@@ -400,7 +409,7 @@ InitWith(c) ==
 
 ResetWith(c) ==
   /\ cf' = c
-  /\ reserved' = 0 /\ yielded' = 0 /\ completed' = FALSE /\ taken' = 0 /\ calls' = 0 /\ alive' = TRUE
+  /\ reserved' = 0 /\ yielded' = 0 /\ completed' = FALSE /\ taken' = 0 /\ noneSeen' = FALSE /\ calls' = 0 /\ alive' = TRUE
   /\ pc' = [t \in 0..c.nt |-> "idle"]
   /\ op' = [t \in 0..c.nt |-> [k |-> "", n |-> 0, take |-> -1]]
   /\ tk' = [t \in 0..c.nt |-> 0]
@@ -441,7 +450,7 @@ Inv_C17 == Holds(mon, "C17")
 \* the index a ticket holder reports is the position of the item it takes (reason for C02):
 \* whenever a thread is about to call the wrapped next(), everything before its ticket has been taken
 Inv_TicketIsPosition ==
-  \A t \in T : pc[t] = "enter" /\ op[t].k # "intoseq" /\ taken < cf.len => taken = tk[t] + Len(got[t])
+  \A t \in T : pc[t] = "enter" /\ op[t].k # "intoseq" /\ taken < cf.len /\ ~noneSeen => taken = tk[t] + Len(got[t])
 \* no wrap-around under the precondition of C01 / C05
 Inv_NoWrap == reserved < MOD \div 2 /\ yielded < MOD \div 2
 \* C09 / C18: with the poll reduction, a hang of the real code is a deadlock of this model
